@@ -58,7 +58,31 @@ def col(m, i):
     return val(z3.Select(m.arr, i, 0))
 
 
-@contract('C01/get_ode_eqn', ['C01', 'C10', 'C12'], DET + 'get_ode_eqn', max_paths=4000)
+def _replay_ode_eqn(clause, m):
+    """directed models for the accumulation clauses of get_ode_eqn: several explicit ODE terms on the SAME state next to events that
+    touch it, and events whose members differ in size, each against the independent sympy reconstruction (standins/models.py)"""
+    import numpy as np
+    from standins import c01 as sc
+    specs = [
+        {'states': ['S', 'I'], 'state_decl': ['S', 'I'], 'params': ['p0', 'p1'],
+         'events': [('p0*S*I', [('T', 'S', 'I', '1')])], 'odes': [('S', '-p1*S'), ('S', 'p0'), ('I', 'p1*S'), ('I', '-p0*I')], 'derived': []},
+        {'states': ['S', 'I', 'R'], 'state_decl': ['S', 'I', 'R'], 'params': ['p0', 'p1'],
+         'events': [('p0*S', [('D', 'S', 'S', '2'), ('B', 'I', 'I', '1'), ('T', 'I', 'R', '3'), ('B', 'R', 'R', '1')]),
+                    ('p1*I', [('T', 'I', 'R', '1'), ('T', 'R', 'S', '2')])], 'odes': [('R', '-p1*R'), ('R', '-p0*R')], 'derived': []},
+    ]
+    bad, inp = [], None
+    for spec in specs:
+        try:
+            b = sc.check_spec(spec, np.random.RandomState(3), 'lambda')
+        except Exception as e:
+            b = ["raises %s: %s" % (type(e).__name__, e)]
+        if b:
+            bad, inp = b[:3], spec
+            break
+    return {'reproduced': bool(bad), 'observed': bad, 'input': inp or 'two directed models (repeated ODE terms on one state; members of different sizes)'}
+
+
+@contract('C01/get_ode_eqn', ['C01', 'C10', 'C12'], DET + 'get_ode_eqn', max_paths=4000, replay=_replay_ode_eqn)
 def get_ode_eqn(vc):
     """the symbolic right-hand side: for every state i and every valuation, the sum over events of
     rate x magnitude x signed incidence plus the explicit ODE terms for i"""
